@@ -78,6 +78,9 @@ def check_ref(fx, rule, ident, ref, what, body=None, keep=(), inst=None, key=Non
         ref = ref(t)
         if ref is None:
             return False
+        if isinstance(ref, tuple) and len(ref) == 2 and isinstance(ref[1], list):
+            ref, more = ref
+            alt = tuple(alt) + tuple(more)
     ref = fx.n(ref)
     try:
         m = D.equivalent(t, ref, leaf_eq_nan)
@@ -377,7 +380,22 @@ def check_C14(ctx, rep):
     if frac is None or find_table(fx, "exp((i-k)/128)-1", 32, 65) is None:
         return
     pol = vg.Policy(f, "op")
-    eh = [b for b in fx.by_sig(["i32"], TF) if pol.has_loop_or_recursion(b)]       # the self-recursive table function
+    eh_all = [b for b in fx.by_sig(["i32"], TF) if not b.reachable]
+    eh = [b for b in eh_all if pol.has_loop_or_recursion(b)]             # the table function: self-recursive ...
+    if not eh:
+        # ... or with the recursion unfolded: the private fn(i32) -> TwoFloat that indexes the exp(16 n) table
+        t16_ = find_table(fx, "exp(16(i+k))", 1, 44)
+        for b_ in eh_all:
+            try:
+                tb_ = H.tree_of(f, b_, "op")
+            except vg.Unsupported:
+                continue
+            nodes_ = set()
+            for _, lf in vg.leaves(tb_):
+                if lf[0] == "leaf":
+                    nodes_ |= set(all_nodes(lf[1]))
+            if t16_ is not None and t16_ in nodes_:
+                eh.append(b_)
     # the exponent may be carried in any signed integer type that holds -1074..1023
     EXP_TYS = ("i32", "i64", "i16", "isize", "i128")
     mp = [(b, ity) for ity in EXP_TYS for b in fx.by_sig(["f64", ity], "f64") if pol.has_loop_or_recursion(b)]
@@ -445,11 +463,23 @@ def check_C14(ctx, rep):
         one = mk("const", "usize", 1); zero = mk("const", "usize", 0)
         e16 = V(mk("index", t16, mk("i", "sub", "usize", a, one)), "TF")
         eh2 = V(mk("index", th, mk("i", "sub", "usize", b, one)), "TF")
-        body = IF(mk("cmp", "gt", "usize", a, zero), IF(mk("cmp", "gt", "usize", b, zero), RETV(e16 * eh2), RETV(e16)),
-                  IF(mk("cmp", "gt", "usize", b, zero), RETV(eh2), RETV(ONE_TF)))
-        rec = RETV(1.0 / V(mk("call", EH, mk("i", "neg", "i32", n)), "TF"))
-        return IF(mk("cmp", "lt", "i32", n, mk("const", "i32", lim)),
-                  IF(mk("call", "core::num::<impl i32>::is_negative", n), rec, body), PANIC)
+        def body_of(k, wrap=lambda v: v):
+            a = mk("cast", "IntToInt", "i32", "usize", mk("i", "div", "i32", k, mk("const", "i32", 32)))
+            b = mk("cast", "IntToInt", "i32", "usize", mk("i", "rem", "i32", k, mk("const", "i32", 32)))
+            e16 = V(mk("index", t16, mk("i", "sub", "usize", a, one)), "TF")
+            eh2 = V(mk("index", th, mk("i", "sub", "usize", b, one)), "TF")
+            return IF(mk("cmp", "gt", "usize", a, zero), IF(mk("cmp", "gt", "usize", b, zero), RETV(wrap(e16 * eh2)), RETV(wrap(e16))),
+                      IF(mk("cmp", "gt", "usize", b, zero), RETV(wrap(eh2)), RETV(wrap(ONE_TF))))
+        body = body_of(n)
+        negn = mk("i", "neg", "i32", n)
+        limc = mk("const", "i32", lim)
+        rec = RETV(1.0 / V(mk("call", EH, negn), "TF"))
+        isneg = mk("call", "core::num::<impl i32>::is_negative", n)
+        main = IF(mk("cmp", "lt", "i32", n, limc), IF(isneg, rec, body), PANIC)
+        # the same function with the (depth-one) recursion unfolded: look up -n, re-assert, invert at the end
+        flat = IF(mk("cmp", "lt", "i32", n, limc),
+                  IF(isneg, IF(mk("cmp", "lt", "i32", negn, limc), body_of(negn, lambda v: 1.0 / v), PANIC), body), PANIC)
+        return main, [flat]
     check_ref(fx, "R35", EH, exp_half_ref, "n<limit; n<0 -> 1/exp_half(-n); (a,b)=(n/32,n%32); exp16[a-1]*exphalf[b-1] with empty factors dropped", body=eh[0], inst="exp_half (exp(n/2) from tables)")
     check_exp_m1(fx, frac)
     # ---- exp_m1 (see check_exp_m1)
